@@ -105,6 +105,10 @@ func baseDesc(v ssa.Value, depth int) string {
 			return sn + "." + f
 		}
 	case *ssa.Call:
+		// a wrapper that only hands out what it took from a pool is named after the pool's Get
+		if f := x.Call.StaticCallee(); f != nil && f.Pkg != nil && strings.HasPrefix(f.Pkg.Pkg.Path(), modPath) && len(f.Blocks) > 0 && poolGetter(f) != nil {
+			return "result of (*sync.Pool).Get"
+		}
 		return "result of " + calleeID(x)
 	case *ssa.Parameter:
 		return "parameter of type " + typeStr(x.Type())
@@ -600,7 +604,7 @@ func c04R3(c *Ctx, r *Report, rule string) {
 
 	// ---- R8: every other unchecked type assertion ----
 	rule8 := "C04.R8"
-	r.rule(rule8, "every other unchecked type assertion x.(T) in per-connection code is justified: x is (a phi of) values boxed from T / keyed values whose producers store T / sync.Pool.Get of a pool whose New function and every Put store T; or the path evaluation of the function shows that x holds T on every path reaching the assertion", 6)
+	r.rule(rule8, "every other unchecked type assertion x.(T) in per-connection code is justified: x is (a phi of) values boxed from T / keyed values whose producers store T / sync.Pool.Get of a pool whose New function and every Put store T; or the path evaluation of the function shows that x holds T on every path reaching the assertion", 3)
 	isKeyed := func(v ssa.Value) (space, key string, ok bool) {
 		if ex, isEx := v.(*ssa.Extract); isEx && ex.Index == 0 {
 			v = ex.Tuple
@@ -635,14 +639,17 @@ func c04R3(c *Ctx, r *Report, rule string) {
 		// Put sites
 		for _, fn := range c.Funcs {
 			for _, ci := range callsIn(fn) {
-				if calleeID(ci) != "(*sync.Pool).Put" {
+				kind, gg, put := poolOp(ci)
+				if kind != "put" || gg != g {
 					continue
 				}
-				if gg, ok := ci.Common().Args[0].(*ssa.Global); !ok || gg != g {
-					continue
+				if calleeID(ci) != "(*sync.Pool).Put" && poolGetter(fn) == nil {
+					if _, idx := poolPutter(ci.Common().StaticCallee()); idx >= 0 {
+						// a call of a putter wrapper: judged by the type of what is handed to it
+					}
 				}
 				n++
-				if t := valType(ci.Common().Args[1]); !typeOK(t, asserted) {
+				if t := valType(put); !typeOK(t, asserted) {
 					bad = append(bad, "Put of "+typeStr(t)+" at "+c.ipos(ci))
 				}
 			}
@@ -708,8 +715,8 @@ func c04R3(c *Ctx, r *Report, rule string) {
 			}
 			return true, bad, "phi{" + strings.Join(hows, "; ") + "}"
 		case *ssa.Call:
-			if calleeID(x) == "(*sync.Pool).Get" {
-				if g, ok := x.Call.Args[0].(*ssa.Global); ok {
+			if kind, g, _ := poolOp(x); kind == "get" {
+				if g != nil {
 					n, bad := poolProducers(g, asserted)
 					if n < 2 {
 						bad = append(bad, "no New/Put producers found for the pool")
